@@ -147,11 +147,16 @@ def run(ctx, out):
                 out.violation('C16:delete-accepted', f'{opts}: attribute deletion succeeded', {'options': opts})
             except AttributeError:
                 pass
-            # ---- copy / deepcopy / replace / repr
+            # ---- copy / deepcopy / replace / repr: every subset of explicitly set fields (none, one, both)
+            for x in (cls(), cls(3), cls(f1=4), cls(3, f1=4)):
+                for nm, y in (('copy', copy.copy(x)), ('deepcopy', copy.deepcopy(x))):
+                    if (eq and not (y == x)) or y.__pane_set__ != x.__pane_set__ or (y.f0, y.f1) != (x.f0, x.f1) or type(y) is not cls \
+                            or y.dict(set_only=True) != x.dict(set_only=True):
+                        out.violation(f'C16:{nm}', f'{opts}: {nm} gave {y!r} with set-record {sorted(y.__pane_set__)} from {x!r} with set-record {sorted(x.__pane_set__)}', {'options': opts})
+                r0 = x.__replace__()
+                if (r0.f0, r0.f1) != (x.f0, x.f1) or r0.__pane_set__ != x.__pane_set__:
+                    out.violation('C16:replace-nothing', f'{opts}: replace() without changes gave {r0!r} / {sorted(r0.__pane_set__)} from {x!r} / {sorted(x.__pane_set__)}', {'options': opts})
             x = cls(3, f1=4)
-            for nm, y in (('copy', copy.copy(x)), ('deepcopy', copy.deepcopy(x))):
-                if (eq and not (y == x)) or y.__pane_set__ != x.__pane_set__ or (y.f0, y.f1) != (3, 4) or type(y) is not cls:
-                    out.violation(f'C16:{nm}', f'{opts}: {nm} gave {y!r} with set-record {y.__pane_set__} from {x!r} {x.__pane_set__}', {'options': opts})
             y = x.__replace__(f1=9)
             if (y.f0, y.f1) != (3, 9) or type(y) is not cls:
                 out.violation('C16:replace', f'{opts}: replace gave {y!r}', {'options': opts})
